@@ -143,6 +143,54 @@ def constsWellFormed (a : Ast) : Bool :=
          | some (.enum en) => en.variants.any (·.name == v)
          | _ => false)
 
+
+/-! ### side conditions of `C07_decoders_fit_declarations` that `Supported` leaves to rustc (all decidable; the driver evaluates them) -/
+
+/-- the parameter lists of typedefs and enums as the generic index assigns them (what `C13_typedef_param_consistent` proves of
+    every `Ast` the front end builds; an enum reaches no opaque data) -/
+def paramsOk (a : Ast) : Bool :=
+  a.types.all fun kv =>
+    match kv.2 with
+    | .typedef t => a.isGeneric kv.1 == (t.target.isOpaque || a.targetGeneric t.target)
+    | .enum _ => !(a.isGeneric kv.1)
+    | _ => true
+
+def isEnumConst (a : Ast) (l : String) : Bool :=
+  match a.getConst l with
+  | some (.enumValue _ _) => true
+  | _ => false
+
+/-- what `Supported` leaves to rustc about the labels of integer-switched unions: the value fits the discriminant's type, and an
+    enum member labels such a union only when the switch is written with the primitive itself (`E::V as u32` is a cast to a
+    primitive; a cast to a typedef'd newtype does not compile) -/
+def labelsTypedU (a : Ast) (u : Union) : Bool :=
+  match discKind a u.switch.varType with
+  | .u32 => (allLabels u).all fun l =>
+      (match labelValue a l with | some v => decide (v < 2^32) | none => false) && (!isEnumConst a l || decide (u.switch.varType = .u32))
+  | .i32 => (allLabels u).all fun l => (!isEnumConst a l || decide (u.switch.varType = .i32))
+  | _ => true
+
+def labelsTyped (a : Ast) : Bool :=
+  a.types.all fun kv =>
+    match kv.2 with
+    | .union u => labelsTypedU a u
+    | _ => true
+
+/-- the variants `print_types` declares for a union: one per label, in the order data labels, void labels, default -/
+def unionVariants (a : Ast) (u : Union) : List (String × Option TyExpr) :=
+  (u.cases.map fun c => c.caseValues.map fun l => (l, some (armTy a c.fieldValue))).flatten
+    ++ u.voidCases.map (fun l => (l, none))
+    ++ (match u.default with | some d => [("default", some (armTy a d.fieldValue))] | none => [])
+
+/-- no two labels of one union give the same variant name (`1` and `v_1` would): part of what `Supported` leaves to rustc -/
+def variantsDistinctU (a : Ast) (u : Union) : Bool := decide (((unionVariants a u).map fun x => nonDigitName x.1).Nodup)
+
+def variantsDistinct (a : Ast) : Bool :=
+  a.types.all fun kv =>
+    match kv.2 with
+    | .union u => variantsDistinctU a u
+    | _ => true
+
 /-- the supported subset -/
 def Supported (a : Ast) : Bool :=
   keysOk a && a.types.all (fun kv => typeOk a kv.2) && constNamesOk a && enumConstsOk a && constsWellFormed a
